@@ -174,6 +174,10 @@ func (p *Program) activationSites(f *FuncInfo) []site {
 		if f.Parent != nil {
 			ref := f.Parent.CFG().Find(f.Lit.Pos())
 			if ref.Valid() {
+				// a literal handed to a repository method of the same receiver that only ever calls it: it runs where the callee calls it
+				if inner := p.callbackSites(f.Parent, ref, func(a ast.Expr) bool { return ast.Unparen(a) == ast.Expr(f.Lit) }); inner != nil {
+					return inner
+				}
 				sites = append(sites, site{f.Parent, ref})
 			}
 		}
@@ -192,7 +196,11 @@ func (p *Program) activationSites(f *FuncInfo) []site {
 				}
 				if id, ok := n.(*ast.Ident); ok {
 					if g.Info().Uses[id] == types.Object(f.Var) {
-						sites = append(sites, site{g, r})
+						if inner := p.callbackSites(g, r, func(a ast.Expr) bool { return ast.Unparen(a) == ast.Expr(id) }); inner != nil {
+							sites = append(sites, inner...)
+						} else {
+							sites = append(sites, site{g, r})
+						}
 					}
 				}
 				return true
@@ -584,4 +592,111 @@ func ViaCall(id string, match func(fn *types.Func) bool) Via {
 		}
 		return "", false
 	}}
+}
+
+// callbackSites: the node at ref (in function g) passes a function value (recognised by isArg) as a direct argument
+// to a repository method of g's own receiver type with the same receiver name, and that method uses the parameter
+// only by calling it. The function value then runs at those calls: they are returned as its activation sites.
+// nil when the pattern does not apply (the caller falls back to the creation / use site).
+func (p *Program) callbackSites(g *FuncInfo, ref NodeRef, isArg func(ast.Expr) bool) []site {
+	var out []site
+	matched := false
+	InspectNoLits(ref.Node(), func(n ast.Node) bool {
+		call, ok := n.(*ast.CallExpr)
+		if !ok || matched {
+			return true
+		}
+		idx := -1
+		for i, a := range call.Args {
+			if isArg(a) {
+				idx = i
+			}
+		}
+		if idx < 0 {
+			return true
+		}
+		callee := p.CalleeInfo(g.Info(), call)
+		if callee == nil || callee.Decl == nil || callee.Obj == nil || callee.Decl.Recv == nil {
+			return true
+		}
+		root := g.Root()
+		if root.Decl == nil || root.Decl.Recv == nil || len(root.Decl.Recv.List) != 1 || len(callee.Decl.Recv.List) != 1 ||
+			len(root.Decl.Recv.List[0].Names) != 1 || len(callee.Decl.Recv.List[0].Names) != 1 ||
+			root.Decl.Recv.List[0].Names[0].Name != callee.Decl.Recv.List[0].Names[0].Name ||
+			!types.Identical(root.Info().TypeOf(root.Decl.Recv.List[0].Type), callee.Info().TypeOf(callee.Decl.Recv.List[0].Type)) {
+			return true
+		}
+		// the call must be made on the receiver itself (h.method(...)): the textual lock names then denote the same mutex
+		sel, ok := ast.Unparen(call.Fun).(*ast.SelectorExpr)
+		if !ok {
+			return true
+		}
+		if rid, ok := ast.Unparen(sel.X).(*ast.Ident); !ok || rid.Name != root.Decl.Recv.List[0].Names[0].Name {
+			return true
+		}
+		// parameter object
+		var param types.Object
+		k := 0
+		for _, fld := range callee.Type.Params.List {
+			for _, nm := range fld.Names {
+				if k == idx {
+					param = callee.Info().Defs[nm]
+				}
+				k++
+			}
+		}
+		if param == nil {
+			return true
+		}
+		// every use of the parameter in the callee (its own body and nested literals) is the Fun of a call, not in go/defer
+		callOnly := true
+		var sitesIn []site
+		var visit func(h *FuncInfo)
+		visit = func(h *FuncInfo) {
+			hi := h.Info()
+			funOf := map[*ast.Ident]bool{}
+			async := map[*ast.CallExpr]bool{}
+			ast.Inspect(h.Body, func(m ast.Node) bool {
+				switch x := m.(type) {
+				case *ast.GoStmt:
+					async[x.Call] = true
+				case *ast.DeferStmt:
+					async[x.Call] = true
+				case *ast.CallExpr:
+					if id, ok := ast.Unparen(x.Fun).(*ast.Ident); ok && hi.Uses[id] == param {
+						if async[x] {
+							callOnly = false
+						}
+						funOf[id] = true
+					}
+				}
+				return true
+			})
+			h.CFG().EachNode(func(r NodeRef) {
+				InspectNoLits(r.Node(), func(m ast.Node) bool {
+					if id, ok := m.(*ast.Ident); ok && hi.Uses[id] == param {
+						if funOf[id] {
+							sitesIn = append(sitesIn, site{h, r})
+						} else {
+							callOnly = false
+						}
+					}
+					return true
+				})
+			})
+			for _, kid := range h.Kids {
+				visit(kid)
+			}
+		}
+		visit(callee)
+		if callOnly && len(sitesIn) > 0 {
+			matched = true
+			out = sitesIn
+		}
+		return true
+	})
+	if !matched {
+		return nil
+	}
+	return out
 }
